@@ -2,6 +2,7 @@
 package main
 
 import (
+	"context"
 	"encoding/json"
 	"fmt"
 	"reflect"
@@ -52,13 +53,61 @@ func setMask(l reflect.Value) []bool {
 	return m
 }
 
+// A declared (named, generic-usable) config type: stacked through the PUBLIC
+// API (dials.Config + View) as well, which ties the verif export to the API.
+type StaticInner struct {
+	X    int
+	Skip int `dials:"-"`
+	Y    string
+}
+type StaticPtr struct{ Z int16 }
+type StaticCfg struct {
+	A      int64
+	hidden string
+	B      StaticInner
+	C      chan int
+	P      *StaticPtr
+	S      []string
+	U      *int
+	M      map[string]int
+	T      rty.TUp
+	StaticInner2
+}
+type StaticInner2 struct{ W uint8 }
+
+type layerSource struct{ v reflect.Value }
+
+func (l layerSource) Value(_ context.Context, _ *dials.Type) (reflect.Value, error) { return l.v, nil }
+
+func viaPublicAPI(defaults reflect.Value, layers []reflect.Value) (res reflect.Value, err error, panicked bool) {
+	defer func() {
+		if r := recover(); r != nil {
+			panicked = true
+		}
+	}()
+	srcs := make([]dials.Source, len(layers))
+	for i, l := range layers {
+		srcs[i] = layerSource{l}
+	}
+	d, err := dials.Config(context.Background(), defaults.Interface().(*StaticCfg), srcs...)
+	if err != nil {
+		return reflect.Value{}, err, false
+	}
+	return reflect.ValueOf(d.View()).Elem(), nil, false
+}
+
 func run(raw json.RawMessage) driver.Result {
 	var in input
 	if err := json.Unmarshal(raw, &in); err != nil {
 		panic(err)
 	}
 	r := coqfmt.NewRng(in.State)
-	T := rty.GenStruct(r, rty.AllOpts(in.Depth, in.Width), 0)
+	var T reflect.Type
+	if in.K == "static" {
+		T = reflect.TypeOf(StaticCfg{})
+	} else {
+		T = rty.GenStruct(r, rty.AllOpts(in.Depth, in.Width), 0)
+	}
 	defaults := reflect.New(T)
 	rty.GenValue(r, defaults.Elem(), rty.VOpts{NilNum: 1, NilDen: 3}, 0)
 	PT := ptrify.Pointerify(T, defaults.Elem())
@@ -91,6 +140,14 @@ func run(raw json.RawMessage) driver.Result {
 	}
 	defTerm := rty.StructFieldsTerm(defaults.Elem())
 	res, err, panicked := composeSafe(defaults, layers)
+	var direct []string
+	if in.K == "static" {
+		res2, err2, p2 := viaPublicAPI(defaults, layers)
+		if (err == nil) != (err2 == nil) || panicked != p2 ||
+			(err == nil && !panicked && !reflect.DeepEqual(res.Interface(), res2.Interface())) {
+			direct = append(direct, "dials.Config+View disagrees with the verif-tagged compose export on the same inputs")
+		}
+	}
 	okTerm := ""
 	if err == nil && !panicked {
 		okTerm = rty.StructFieldsTerm(res)
@@ -104,9 +161,10 @@ func run(raw json.RawMessage) driver.Result {
 	return driver.Result{
 		Coq: fmt.Sprintf("Stack %s %s %s %s %s", rty.FieldsTerm(T), defTerm, coqfmt.List(layerTerms), rty.FieldsTerm(PT),
 			driver.Outcome(okTerm, err, panicked)),
-		Kind:       "generated",
+		Kind:       in.K,
 		Nontrivial: nl >= 2 && overlap,
 		Tags:       tags,
+		Direct:     direct,
 	}
 }
 
@@ -118,7 +176,11 @@ func gen(r *coqfmt.Rng, n int, tier string) []json.RawMessage {
 		if tier == "thorough" {
 			depth = 1 + r.Intn(4)
 		}
-		b, _ := json.Marshal(input{K: "gen", State: r.U64(), Depth: depth, Width: width})
+		k := "gen"
+		if r.Chance(1, 10) {
+			k = "static"
+		}
+		b, _ := json.Marshal(input{K: k, State: r.U64(), Depth: depth, Width: width})
 		out = append(out, b)
 	}
 	return out
